@@ -9,6 +9,7 @@ import (
 	"encoding/base64"
 	"encoding/json"
 	"fmt"
+	"sort"
 
 	"github.com/gittuf/gittuf/internal/common/set"
 	"github.com/gittuf/gittuf/internal/policy"
@@ -28,6 +29,15 @@ const (
 )
 
 var Ctx = context.Background()
+
+// Backend is what scenario builders need: gittuf's storage interface plus raw
+// object writes (to build commit DAGs and tampered objects without moving refs).
+// *memstore.Store and *gitback.Repo implement it.
+type Backend interface {
+	gitstore.Storer
+	PutCommit(tree githash.Hash, parents []githash.Hash, message string, keyPEM []byte) (githash.Hash, error)
+	PutTag(target githash.Hash, name, message string, keyPEM []byte) (githash.Hash, error)
+}
 
 // Root builds v02 root metadata with the given root and primary-rule-file keys.
 func Root(version uint64, rootPrincipals []tuf.Principal, rootThreshold int, targetsPrincipals []tuf.Principal, targetsThreshold int) *tufv02.RootMetadata {
@@ -107,7 +117,7 @@ func State(root, targets *sslibdsse.Envelope, delegations map[string]*sslibdsse.
 // PublishPolicy commits the state on top of the policy-staging ref, points the
 // policy ref at that commit and records an RSL entry for the policy ref,
 // WITHOUT any validation (unlike policy.Apply). It returns the policy commit.
-func PublishPolicy(ms *memstore.Store, st *policy.State, withStagingEntry bool) (githash.Hash, error) {
+func PublishPolicy(ms gitstore.Storer, st *policy.State, withStagingEntry bool) (githash.Hash, error) {
 	if err := st.Commit(ms, "policy", withStagingEntry, false); err != nil {
 		return nil, err
 	}
@@ -125,7 +135,7 @@ func PublishPolicy(ms *memstore.Store, st *policy.State, withStagingEntry bool) 
 }
 
 // Record records a reference entry, signed by key (nil = unsigned).
-func Record(ms *memstore.Store, ref string, target githash.Hash, key *keys.Key) error {
+func Record(ms gitstore.Storer, ref string, target githash.Hash, key *keys.Key) error {
 	e := rsl.NewReferenceEntry(ref, target)
 	if key == nil {
 		return e.Commit(ms, false)
@@ -134,7 +144,7 @@ func Record(ms *memstore.Store, ref string, target githash.Hash, key *keys.Key) 
 }
 
 // Annotate records an annotation, signed by key (nil = unsigned).
-func Annotate(ms *memstore.Store, ids []githash.Hash, skip bool, msg string, key *keys.Key) error {
+func Annotate(ms gitstore.Storer, ids []githash.Hash, skip bool, msg string, key *keys.Key) error {
 	a := rsl.NewAnnotationEntry(ids, skip, msg)
 	if key == nil {
 		return a.Commit(ms, false)
@@ -143,16 +153,23 @@ func Annotate(ms *memstore.Store, ids []githash.Hash, skip bool, msg string, key
 }
 
 // Tree writes a tree {path: content}.
-func Tree(ms *memstore.Store, files map[string]string) githash.Hash {
+func Tree(ms Backend, files map[string]string) githash.Hash {
 	entries := []gitstore.TreeEntry{}
-	for p, c := range files {
+	paths := make([]string, 0, len(files))
+	for p := range files {
+		paths = append(paths, p)
+	}
+	sort.Strings(paths)
+	for _, p := range paths {
+		c := files[p]
 		id, err := ms.WriteBlob([]byte(c))
 		if err != nil {
 			panic(err)
 		}
 		entries = append(entries, gitstore.TreeEntry{Path: p, ID: id, Kind: gitstore.KindBlob})
 	}
-	id, err := ms.WriteTreeNoHook(entries)
+	sort.Slice(entries, func(i, j int) bool { return entries[i].Path < entries[j].Path })
+	id, err := ms.WriteTree(entries)
 	if err != nil {
 		panic(err)
 	}
@@ -160,7 +177,7 @@ func Tree(ms *memstore.Store, files map[string]string) githash.Hash {
 }
 
 // Commit writes a commit object (no ref update), signed by key (nil = unsigned).
-func Commit(ms *memstore.Store, tree githash.Hash, parents []githash.Hash, msg string, key *keys.Key) githash.Hash {
+func Commit(ms Backend, tree githash.Hash, parents []githash.Hash, msg string, key *keys.Key) githash.Hash {
 	var pem []byte
 	if key != nil {
 		pem = key.PEM
